@@ -186,10 +186,10 @@ VF_MAIN
     vf_bytes((unsigned char *) LABEL, 8);
     vf_bytes(CTX, 8);
     VF_ASSUME(ll >= 1 && ll <= 8 && cl <= 8);
-#ifdef VF_DEBUG_CONCRETE
-    ll = 1;
-    cl = 0;
-    length = 32;
+#ifdef VF_LL
+    /* label / context lengths enumerated by the driver (contents symbolic) */
+    ll = VF_LL;
+    cl = VF_CL;
 #endif
 
     rc = psHkdfExpandLabel(NULL, HMAC_SHA256, PRK, HL, LABEL, ll, CTX, cl, length, OUT);
@@ -215,10 +215,6 @@ VF_MAIN
         }
         ok &= (g_info[9 + ll] == cl);
         VF_ASSERT(ok, "c10.hkdf_label_is_length_tls13_label_context");
-    }
-    else
-    {
-        VF_REACH("refused");
     }
 # ifdef VF_CBMC
     VF_ASSERT(VF_HEAP_OK(), "c08.hkdf_label_block_operations_inside_allocations");
